@@ -53,6 +53,36 @@ type c10World struct {
 
 	mu sync.Mutex
 	cs *c10CaseState
+
+	cmu   sync.Mutex
+	conns map[net.Conn]struct{}
+}
+
+// Connections are kept alive during a case (a response with "Connection: close" makes net/http hand the response to
+// git-lfs before it has finished with the request body, which git-lfs then re-uses: note-body-reuse.md) and are all
+// closed by the servers when the case is over.
+func (w *c10World) trackConn(c net.Conn, st http.ConnState) {
+	w.cmu.Lock()
+	defer w.cmu.Unlock()
+	if w.conns == nil {
+		w.conns = map[net.Conn]struct{}{}
+	}
+	switch st {
+	case http.StateNew:
+		w.conns[c] = struct{}{}
+	case http.StateClosed:
+		delete(w.conns, c)
+	}
+}
+
+func (w *c10World) closeConns() {
+	w.cmu.Lock()
+	cs := w.conns
+	w.conns = map[net.Conn]struct{}{}
+	w.cmu.Unlock()
+	for c := range cs {
+		c.Close()
+	}
 }
 
 var (
@@ -87,8 +117,7 @@ func c10ServerTLS() (*tls.Config, error) {
 var c10Quiet = log.New(io.Discard, "", 0)
 
 func (w *c10World) serveOn(ln net.Listener, h http.Handler) {
-	srv := &http.Server{Handler: h, ErrorLog: c10Quiet, ReadHeaderTimeout: 60 * time.Second}
-	srv.SetKeepAlivesEnabled(false)
+	srv := &http.Server{Handler: h, ErrorLog: c10Quiet, ReadHeaderTimeout: 120 * time.Second, ConnState: w.trackConn}
 	w.servers = append(w.servers, srv)
 	w.lns = append(w.lns, ln)
 	go srv.Serve(ln)
@@ -146,7 +175,10 @@ func c10NewDirectWorld() (*c10World, error) {
 			l = tls.NewListener(ln, cfg)
 		}
 		w.serveOn(l, http.HandlerFunc(func(rw http.ResponseWriter, r *http.Request) {
-			body, _ := io.ReadAll(r.Body)
+			body, err := io.ReadAll(r.Body)
+			if c10Aborted(r, body, err) {
+				return
+			}
 			scheme := "http"
 			if r.TLS != nil {
 				scheme = "https"
@@ -189,7 +221,7 @@ func c10NewProxyWorld() (*c10World, error) {
 				return
 			}
 			defer conn.Close()
-			conn.SetDeadline(time.Now().Add(60 * time.Second))
+			conn.SetDeadline(time.Now().Add(300 * time.Second))
 			io.WriteString(conn, "HTTP/1.1 200 Connection established\r\n\r\n")
 			tc := tls.Server(conn, cfg)
 			defer tc.Close()
@@ -197,24 +229,33 @@ func c10NewProxyWorld() (*c10World, error) {
 				return
 			}
 			br := bufio.NewReader(tc)
-			req, err := http.ReadRequest(br)
-			if err != nil {
-				return
+			for { // the tunnel stays open (keep-alive) until the client or closeConns() closes it
+				req, err := http.ReadRequest(br)
+				if err != nil {
+					return
+				}
+				body, err := io.ReadAll(req.Body)
+				if c10Aborted(req, body, err) {
+					return
+				}
+				host := req.Host
+				if host == "" {
+					host = r.Host
+				}
+				rs := w.respond(w.hostIndex("https", host), "https", host, req, len(body))
+				if rs.writeRaw(tc) != nil {
+					return
+				}
 			}
-			body, _ := io.ReadAll(req.Body)
-			host := req.Host
-			if host == "" {
-				host = r.Host
-			}
-			rs := w.respond(w.hostIndex("https", host), "https", host, req, len(body))
-			rs.writeRaw(tc)
-			return
 		}
 		if !r.URL.IsAbs() {
 			rw.WriteHeader(400)
 			return
 		}
-		body, _ := io.ReadAll(r.Body)
+		body, err := io.ReadAll(r.Body)
+		if c10Aborted(r, body, err) {
+			return
+		}
 		host := r.Host
 		if host == "" {
 			host = r.URL.Host
@@ -223,6 +264,14 @@ func c10NewProxyWorld() (*c10World, error) {
 		rs.writeTo(rw)
 	}))
 	return w, nil
+}
+
+// c10Aborted reports a request whose announced body never arrived: the client gave up while sending (this only happens
+// with the body re-send flake described in note-body-reuse.md; that execution is discarded and re-run).  Such a request
+// is answered by nobody and must not be recorded: its handler wakes up only when the client closes the connection,
+// which can be after the next execution has started on the same servers.
+func c10Aborted(r *http.Request, body []byte, err error) bool {
+	return err != nil || (r.ContentLength > 0 && int64(len(body)) != r.ContentLength)
 }
 
 // c10Norm returns the lower-cased host name (without a trailing dot) and the effective port of an authority.
@@ -259,6 +308,9 @@ func (w *c10World) hostIndex(scheme, auth string) int {
 
 // hostName maps an authority to the symbolic host name used in fingerprints and samples (never a port number).
 func (w *c10World) symbolic(s string) string {
+	if c10E.root != "" {
+		s = strings.ReplaceAll(s, c10E.root, "<scratch>")
+	}
 	if w.kind == "proxy" {
 		return strings.ReplaceAll(s, strings.TrimPrefix(w.proxyURL, "http://"), "<proxy>") // host names are already stable
 	}
@@ -285,14 +337,15 @@ func (r c10Resp) writeTo(rw http.ResponseWriter) {
 	io.WriteString(rw, r.body)
 }
 
-func (r c10Resp) writeRaw(wr io.Writer) {
+func (r c10Resp) writeRaw(wr io.Writer) error {
 	var b bytes.Buffer
 	fmt.Fprintf(&b, "HTTP/1.1 %d %s\r\n", r.status, http.StatusText(r.status))
 	for _, kv := range r.hdr {
 		fmt.Fprintf(&b, "%s: %s\r\n", kv[0], kv[1])
 	}
-	fmt.Fprintf(&b, "Content-Length: %d\r\nConnection: close\r\n\r\n%s", len(r.body), r.body)
-	wr.Write(b.Bytes())
+	fmt.Fprintf(&b, "Content-Length: %d\r\n\r\n%s", len(r.body), r.body)
+	_, err := wr.Write(b.Bytes())
+	return err
 }
 
 // ------------------------------------------------------------------------------------------------
@@ -347,6 +400,7 @@ func (w *c10World) end() {
 	w.mu.Lock()
 	w.cs = nil
 	w.mu.Unlock()
+	w.closeConns()
 }
 
 func (w *c10World) setPhase(p string) {
@@ -413,7 +467,9 @@ func (st *c10CaseState) respond(host int, scheme, hostHdr string, r *http.Reques
 	}
 	sc := st.sc
 	pol := sc.Pol[host]
-	challenge := c10Resp{status: 401, hdr: [][2]string{{"Www-Authenticate", `Basic realm="c10"`}, {"Content-Type", "text/plain"}}, body: "auth"}
+	// 401 and 3xx answers carry no body: net/http hands a response WITH a body to the caller before its write goroutine is
+	// done with the request body, and git-lfs re-sends that same body object (note-body-reuse.md)
+	challenge := c10Resp{status: 401, hdr: [][2]string{{"Www-Authenticate", `Basic realm="c10"`}}}
 	if len(o.Auth) == 0 && pol.Need {
 		return challenge
 	}
@@ -505,7 +561,7 @@ func (st *c10CaseState) redirect(host int, scheme, hostHdr string, r *http.Reque
 		}
 		loc = tgt.Scheme + "://" + a + path + "?" + tag
 	}
-	return c10Resp{status: hop.Status, hdr: [][2]string{{"Location", loc}, {"Content-Type", "text/plain"}}, body: "redirect"}
+	return c10Resp{status: hop.Status, hdr: [][2]string{{"Location", loc}}}
 }
 
 var _ = url.Parse
